@@ -242,6 +242,13 @@ def evpn_route5(rng):
     return {'type': 5, 'value': {'rd': rd(rng), 'esi': esi(rng), 'eth_tag_id': rng.choice(U32), 'prefix': pfx, 'gateway': gw, 'label': [rng.choice(LABELS)]}}
 
 
+def evpn_route5c(rng):
+    """EVPN IP prefix route in the shape yabgp's encoder takes (the ESI as the number 0: all-zero segment identifier)"""
+    r = evpn_route5(rng)
+    r['value']['esi'] = 0
+    return r
+
+
 FS_NUMERIC = [3, 4, 5, 6, 7, 8, 10, 11]       # components with numeric operators (9 = tcp flags, 12 = fragment: bitmask)
 
 
